@@ -129,6 +129,8 @@ impl<F: Float> FFT<F> {
             }
             return;
         }
+        // the fold below indexes the twiddle table with a stride of max_n / n, so the table must cover n
+        self.update_n(n);
         let buf = &mut self.bufs[0];
         buf.clear();
         buf.resize(v.len(), Complex::ZERO);
